@@ -419,6 +419,9 @@ pub struct WorkerGate {
 }
 
 impl WorkerGate {
+    pub fn notifying() -> WorkerGate {
+        WorkerGate { notify: true }
+    }
     /// Tell the supervisor that library call `id` starts now.
     pub fn enter(&self, id: u32) {
         if self.notify {
